@@ -88,6 +88,26 @@ Definition handler_result (c:rcfg) (s:rst) : option rerr * rst :=
 
 Definition bit (b m:N) : bool := negb (N.land b m =? 0).
 
+(* advanceFrame step 2: is the frame refused on its first two header bytes?  [fin_seen] is
+   c.readFinal before the frame *)
+Definition hdr_reject (c:rcfg) (fin_seen:bool) (b0 b1:N) : bool :=
+  let op := N.land b0 15 in
+  let final := bit b0 c_finalBit in
+  let rsv1 := bit b0 c_rsv1Bit in
+  let rsv2 := bit b0 c_rsv2Bit in
+  let rsv3 := bit b0 c_rsv3Bit in
+  let mask := bit b1 c_maskBit in
+  let len7 := N.land b1 127 in
+  let e1 := rsv1 && negb (negotiated c) in
+  let isctl := (op =? c_CloseMessage) || (op =? c_PingMessage) || (op =? c_PongMessage) in
+  let isdata := (op =? c_TextMessage) || (op =? c_BinaryMessage) in
+  let iscont := op =? c_continuationFrame in
+  let e3 := if isctl then (c_maxControlFramePayloadSize <? len7) || negb final
+            else if isdata then negb fin_seen
+            else if iscont then fin_seen else true in
+  let e4 := negb (Bool.eqb mask (server c)) in
+  e1 || rsv2 || rsv3 || e3 || e4.
+
 Section WithInflate.
 Variable inflate : bytes -> option bytes.
 
@@ -104,17 +124,12 @@ Definition advance_after_skip (c:rcfg) (s:rst) : adv * rst :=
   let mask := bit b1 c_maskBit in
   let len7 := N.land b1 127 in
   let s := s <| rem := len7 |> <| rdecomp := rsv1 && negotiated c |> in
-  let e1 := rsv1 && negb (negotiated c) in
-  let isctl := (op =? c_CloseMessage) || (op =? c_PingMessage) || (op =? c_PongMessage) in
   let isdata := (op =? c_TextMessage) || (op =? c_BinaryMessage) in
   let iscont := op =? c_continuationFrame in
-  let e3 := if isctl then (c_maxControlFramePayloadSize <? len7) || negb final
-            else if isdata then negb (rfin s)
-            else if iscont then rfin s else true in
+  let reject := hdr_reject c (rfin s) b0 b1 in
   let s := if isdata then s <| rfin := final |> <| rlen := 0 |>
            else if iscont then s <| rfin := final |> else s in
-  let e4 := negb (Bool.eqb mask (server c)) in
-  if e1 || rsv2 || rsv3 || e3 || e4 then protocol_error s else
+  if reject then protocol_error s else
   (* 3. extended length *)
   let '(lenr, s) :=
      if len7 =? 126 then
